@@ -319,6 +319,22 @@ func cmdCheck(args []string) int {
 			to = 3 // satisfiability (non-vacuity) probes: an undecided probe is reported, never fatal
 		}
 		r.res = Solve(r.q, outDir, r.ob.Name, to, all && !r.ob.Cover)
+		if !r.ob.Cover && (r.res.Status == "timeout" || r.res.Status == "unknown" || r.res.Status == "error") {
+			// an undecided answer is retried once with a much longer limit before it is reported
+			// (a loaded machine must not turn a proved obligation into an alarm)
+			if r.qSliced != nil {
+				if sres := Solve(r.qSliced, outDir, r.ob.Name+".sliced", to*4, false); sres.Status == "unsat" {
+					sres.Solver += " (sliced assumptions, retry)"
+					r.res = sres
+					return
+				}
+			}
+			again := Solve(r.q, outDir, r.ob.Name, to*6, false)
+			if again.Status == "unsat" || again.Status == "sat" {
+				again.Solver += " (retry)"
+				r.res = again
+			}
+		}
 		if r.qOutside != nil && r.res.Status != "unsat" {
 			r.outside = Solve(r.qOutside, outDir, r.ob.Name+".outside-known-class", timeout, all)
 		}
